@@ -33,6 +33,7 @@ type Plan struct {
 	NetDelayMs  int
 	WidenUs     int // sleep inside state machine calls
 	SnapEntries uint64
+	SlowSnapMs  int // SaveSnapshot / PrepareSnapshot take this long
 	CliSeeds    []int64
 	PreVote     bool
 	Quiesce     bool
@@ -51,10 +52,11 @@ const (
 	FStopReplica
 	FLoss
 	FPowerCutAll
+	FCloseDuringSnapshot
 	numFaultKinds
 )
 
-var faultNames = [...]string{"partition", "heal", "powercut", "restart", "transfer", "snapshot", "stopreplica", "loss", "powercut-all"}
+var faultNames = [...]string{"partition", "heal", "powercut", "restart", "transfer", "snapshot", "stopreplica", "loss", "powercut-all", "close-during-snapshot"}
 
 type Fault struct {
 	Kind    FaultKind
@@ -246,6 +248,7 @@ func resultOutcome(r dragonboat.RequestResult) string {
 func RunPlan(p Plan) *Result {
 	rec := NewRecorder()
 	rec.Widen = time.Duration(p.WidenUs) * time.Microsecond
+	rec.SlowSnapshot = time.Duration(p.SlowSnapMs) * time.Millisecond
 	c := NewCluster(ClusterOptions{Hosts: p.Hosts, Tan: p.Tan, Seed: 7, RTTms: 2})
 	res := &Result{Plan: p, Rec: rec, Flags: map[string]int{}, Cluster: c}
 	res.sent = newSendMonitor(res, c)
@@ -516,6 +519,25 @@ func RunPlan(p Plan) *Result {
 					}
 				}
 				hostMu.RUnlock()
+			case FCloseDuringSnapshot:
+				// the NodeHost is closed gracefully while one of its snapshot workers is
+				// inside the user state machine's SaveSnapshot / PrepareSnapshot
+				hostMu.Lock()
+				if a.Up && countUp(c) > 1 {
+					name := fmt.Sprintf("%d/%d", shardID, a.Idx+1)
+					if rs, err := a.NH.RequestSnapshot(shardID, dragonboat.SnapshotOption{}, time.Second); err == nil {
+						go func() { <-rs.ResultC(); rs.Release() }()
+						for dl := time.Now().Add(300 * time.Millisecond); time.Now().Before(dl) && !rec.SnapshotBusy(name); {
+							time.Sleep(200 * time.Microsecond)
+						}
+						if rec.SnapshotBusy(name) {
+							res.flag("closed-during-snapshot")
+						}
+						a.Stop()
+						res.restart(a, startReplica)
+					}
+				}
+				hostMu.Unlock()
 			case FStopReplica:
 				hostMu.Lock()
 				if a.Up {
